@@ -1,6 +1,7 @@
 package main
 
 import (
+	"runtime"
 	"sort"
 	"bytes"
 	"context"
@@ -139,7 +140,14 @@ func rewriteAuto(q string, keep bool) string {
 	return b.String()
 }
 
-var cpuSem = make(chan struct{}, 16)
+var cpuSem = make(chan struct{}, maxInt2(4, runtime.NumCPU()))
+
+func maxInt2(a, b int) int {
+	if a > b {
+		return a
+	}
+	return b
+}
 
 func runSolver(parent context.Context, cfg SolverCfg, file string, timeoutS int) (string, string, float64) {
 	select {
@@ -404,7 +412,7 @@ func Solve(frs []*FuncResult, dir string, timeoutS int, keepDir string) {
 		go func(fr *FuncResult) {
 			defer wg.Done()
 			if os.Getenv("GOVC_NOBATCH") == "" {
-				batchFirst(fr, dir, 2000)
+				batchFirst(fr, dir, 5000)
 			}
 			var wg2 sync.WaitGroup
 			for _, o := range fr.Obls {
@@ -462,6 +470,26 @@ func Solve(frs []*FuncResult, dir string, timeoutS int, keepDir string) {
 		}
 	}
 	wg3.Wait()
+	// last resort: z3's incremental mode (no one-shot preprocessing) decides some quantified goals that no one-shot
+	// configuration decides; give the still-open obligations of each function one more incremental run with 5x the budget
+	var wg4 sync.WaitGroup
+	for _, fr := range frs {
+		openHere := 0
+		for _, o := range fr.Obls {
+			if o.Verdict != "proved" && o.Verdict != "refuted" && !o.NoRetry {
+				openHere++
+			}
+		}
+		if openHere == 0 || openHere > 12 || os.Getenv("GOVC_NOBATCH") != "" {
+			continue
+		}
+		wg4.Add(1)
+		go func(fr *FuncResult) {
+			defer wg4.Done()
+			batchFirst(fr, dir, 30000)
+		}(fr)
+	}
+	wg4.Wait()
 }
 
 var retrySem = make(chan struct{}, 4)
